@@ -86,43 +86,45 @@ fn bin_helper_grid<const OL: usize, const OR: usize, const LEN: usize, const NL:
     let (ba, bb) = (mk(&a, 0), mk(&b, 0));
     let z = bitwise_bin_op_helper(&ba, OL, &bb, OR, LEN, tt2(t));
     assert!(z.len() == (LEN + 7) / 8);
+    let (mut c1, mut c2) = (LEN == 0, LEN == 0);
     if LEN > 0 {
         let i: usize = kani::any();
         kani::assume(i < LEN);
         let (x, y) = (bit(&a, OL + i), bit(&b, OR + i));
         assert!(bit(z.as_slice(), i) == t[2 * (x as usize) + (y as usize)]);
-        kani::cover!(bit(z.as_slice(), i) && x && !y);
-        kani::cover!(!bit(z.as_slice(), i) && y);
+        c1 = bit(z.as_slice(), i) && x && !y;
+        c2 = !bit(z.as_slice(), i) && y;
     }
-    kani::cover!(z.len() == (LEN + 7) / 8);
+    kani::cover!(c1);
+    kani::cover!(c2);
 }
 // Contract (C19) bitwise_bin_op_helper(l, ol, r, or, len, op) for each of the 16 uniform bitwise binary
 // operations (symbolic truth table t): returns a zero-offset bitmap of exactly ceil(len/8) bytes
 // whose bit i is t[l-bit ol+i][r-bit or+i] for every i < len; inputs fully symbolic (bits outside the
 // addressed ranges included, so they are not read as data).
-// @unit name=ops_bin_helper_3_5_12 props=C19 kind=bounded bound=grid_(ol,or,len,bytes_l,bytes_r)=(3,5,12,3,3) fns=bitwise_bin_op_helper tier=thorough timeout=240 note=not_confirmed_under_load
+// @unit name=ops_bin_helper_3_5_12 props=C19 kind=bounded bound=grid_(ol,or,len,bytes_l,bytes_r)=(3,5,12,3,3) fns=bitwise_bin_op_helper timeout=240
 inst!(ops_bin_helper_3_5_12, 12, bin_helper_grid::<3, 5, 12, 3, 3>());
-// @unit name=ops_bin_helper_0_0_64 props=C19 kind=bounded bound=grid_(ol,or,len,bytes_l,bytes_r)=(0,0,64,9,8) fns=bitwise_bin_op_helper tier=thorough timeout=240 note=not_confirmed_under_load
+// @unit name=ops_bin_helper_0_0_64 props=C19 kind=bounded bound=grid_(ol,or,len,bytes_l,bytes_r)=(0,0,64,9,8) fns=bitwise_bin_op_helper timeout=240
 inst!(ops_bin_helper_0_0_64, 12, bin_helper_grid::<0, 0, 64, 9, 8>());
-// @unit name=ops_bin_helper_0_9_65 props=C19 kind=bounded bound=grid_(ol,or,len,bytes_l,bytes_r)=(0,9,65,10,10) fns=bitwise_bin_op_helper tier=thorough timeout=240 note=not_confirmed_under_load
+// @unit name=ops_bin_helper_0_9_65 props=C19 kind=bounded bound=grid_(ol,or,len,bytes_l,bytes_r)=(0,9,65,10,10) fns=bitwise_bin_op_helper timeout=240
 inst!(ops_bin_helper_0_9_65, 12, bin_helper_grid::<0, 9, 65, 10, 10>());
-// @unit name=ops_bin_helper_3_3_70 props=C19 kind=bounded bound=grid_(ol,or,len,bytes_l,bytes_r)=(3,3,70,11,10) fns=bitwise_bin_op_helper tier=thorough timeout=240 note=not_confirmed_under_load
+// @unit name=ops_bin_helper_3_3_70 props=C19 kind=bounded bound=grid_(ol,or,len,bytes_l,bytes_r)=(3,3,70,11,10) fns=bitwise_bin_op_helper tier=thorough timeout=240
 inst!(ops_bin_helper_3_3_70, 12, bin_helper_grid::<3, 3, 70, 11, 10>());
-// @unit name=ops_bin_helper_0_0_0 props=C19 kind=bounded bound=grid_(ol,or,len,bytes_l,bytes_r)=(0,0,0,2,1) fns=bitwise_bin_op_helper tier=thorough timeout=240 note=not_confirmed_under_load
+// @unit name=ops_bin_helper_0_0_0 props=C19 kind=bounded bound=grid_(ol,or,len,bytes_l,bytes_r)=(0,0,0,2,1) fns=bitwise_bin_op_helper tier=thorough timeout=240
 inst!(ops_bin_helper_0_0_0, 12, bin_helper_grid::<0, 0, 0, 2, 1>());
-// @unit name=ops_bin_helper_7_1_1 props=C19 kind=bounded bound=grid_(ol,or,len,bytes_l,bytes_r)=(7,1,1,2,1) fns=bitwise_bin_op_helper tier=thorough timeout=240 note=not_confirmed_under_load
+// @unit name=ops_bin_helper_7_1_1 props=C19 kind=bounded bound=grid_(ol,or,len,bytes_l,bytes_r)=(7,1,1,2,1) fns=bitwise_bin_op_helper tier=thorough timeout=240
 inst!(ops_bin_helper_7_1_1, 12, bin_helper_grid::<7, 1, 1, 2, 1>());
-// @unit name=ops_bin_helper_63_64_65 props=C19 kind=bounded bound=grid_(ol,or,len,bytes_l,bytes_r)=(63,64,65,17,17) fns=bitwise_bin_op_helper tier=thorough timeout=240 note=not_confirmed_under_load
+// @unit name=ops_bin_helper_63_64_65 props=C19 kind=bounded bound=grid_(ol,or,len,bytes_l,bytes_r)=(63,64,65,17,17) fns=bitwise_bin_op_helper tier=thorough timeout=240
 inst!(ops_bin_helper_63_64_65, 12, bin_helper_grid::<63, 64, 65, 17, 17>());
-// @unit name=ops_bin_helper_1_65_127 props=C19 kind=bounded bound=grid_(ol,or,len,bytes_l,bytes_r)=(1,65,127,17,24) fns=bitwise_bin_op_helper tier=thorough timeout=240 note=not_confirmed_under_load
+// @unit name=ops_bin_helper_1_65_127 props=C19 kind=bounded bound=grid_(ol,or,len,bytes_l,bytes_r)=(1,65,127,17,24) fns=bitwise_bin_op_helper tier=thorough timeout=240
 inst!(ops_bin_helper_1_65_127, 12, bin_helper_grid::<1, 65, 127, 17, 24>());
-// @unit name=ops_bin_helper_130_2_200 props=C19 kind=bounded bound=grid_(ol,or,len,bytes_l,bytes_r)=(130,2,200,43,26) fns=bitwise_bin_op_helper tier=thorough timeout=240 note=not_confirmed_under_load
+// @unit name=ops_bin_helper_130_2_200 props=C19 kind=bounded bound=grid_(ol,or,len,bytes_l,bytes_r)=(130,2,200,43,26) fns=bitwise_bin_op_helper tier=thorough timeout=240
 inst!(ops_bin_helper_130_2_200, 12, bin_helper_grid::<130, 2, 200, 43, 26>());
-// @unit name=ops_bin_helper_8_16_128 props=C19 kind=bounded bound=grid_(ol,or,len,bytes_l,bytes_r)=(8,16,128,18,18) fns=bitwise_bin_op_helper tier=thorough timeout=240 note=not_confirmed_under_load
+// @unit name=ops_bin_helper_8_16_128 props=C19 kind=bounded bound=grid_(ol,or,len,bytes_l,bytes_r)=(8,16,128,18,18) fns=bitwise_bin_op_helper tier=thorough timeout=240
 inst!(ops_bin_helper_8_16_128, 12, bin_helper_grid::<8, 16, 128, 18, 18>());
-// @unit name=ops_bin_helper_129_127_129 props=C19 kind=bounded bound=grid_(ol,or,len,bytes_l,bytes_r)=(129,127,129,34,32) fns=bitwise_bin_op_helper tier=thorough timeout=240 note=not_confirmed_under_load
+// @unit name=ops_bin_helper_129_127_129 props=C19 kind=bounded bound=grid_(ol,or,len,bytes_l,bytes_r)=(129,127,129,34,32) fns=bitwise_bin_op_helper tier=thorough timeout=240
 inst!(ops_bin_helper_129_127_129, 12, bin_helper_grid::<129, 127, 129, 34, 32>());
-// @unit name=ops_bin_helper_5_5_63 props=C19 kind=bounded bound=grid_(ol,or,len,bytes_l,bytes_r)=(5,5,63,10,9) fns=bitwise_bin_op_helper tier=thorough timeout=240 note=not_confirmed_under_load
+// @unit name=ops_bin_helper_5_5_63 props=C19 kind=bounded bound=grid_(ol,or,len,bytes_l,bytes_r)=(5,5,63,10,9) fns=bitwise_bin_op_helper tier=thorough timeout=240
 inst!(ops_bin_helper_5_5_63, 12, bin_helper_grid::<5, 5, 63, 10, 9>());
 
 fn unary_helper_grid<const OFF: usize, const LEN: usize, const N: usize>() {
@@ -133,36 +135,38 @@ fn unary_helper_grid<const OFF: usize, const LEN: usize, const N: usize>() {
     let (m0, m1) = (mask(t[0]), mask(t[1]));
     let z = bitwise_unary_op_helper(&ba, OFF, LEN, |x| (m0 & !x) | (m1 & x));
     assert!(z.len() == (LEN + 7) / 8);
+    let (mut c1, mut c2) = (LEN == 0, LEN == 0);
     if LEN > 0 {
         let i: usize = kani::any();
         kani::assume(i < LEN);
         assert!(bit(z.as_slice(), i) == t[bit(&a, OFF + i) as usize]);
-        kani::cover!(bit(z.as_slice(), i) && !t[0]);
-        kani::cover!(!bit(z.as_slice(), i) && t[0]);
+        c1 = bit(z.as_slice(), i) && !t[0];
+        c2 = !bit(z.as_slice(), i) && t[0];
     }
-    kani::cover!(z.len() == (LEN + 7) / 8);
+    kani::cover!(c1);
+    kani::cover!(c2);
 }
 // Contract (C19) bitwise_unary_op_helper(src, offset, len, op) for each of the 4 uniform bitwise unary
 // operations: zero-offset bitmap of exactly ceil(len/8) bytes, bit i = t[src-bit offset+i], i < len.
-// @unit name=ops_unary_helper_3_12 props=C19 kind=bounded bound=grid_(offset,len,bytes)=(3,12,3) fns=bitwise_unary_op_helper tier=thorough timeout=240 note=not_confirmed_under_load
+// @unit name=ops_unary_helper_3_12 props=C19 kind=bounded bound=grid_(offset,len,bytes)=(3,12,3) fns=bitwise_unary_op_helper timeout=240
 inst!(ops_unary_helper_3_12, 12, unary_helper_grid::<3, 12, 3>());
-// @unit name=ops_unary_helper_0_64 props=C19 kind=bounded bound=grid_(offset,len,bytes)=(0,64,8) fns=bitwise_unary_op_helper tier=thorough timeout=240 note=not_confirmed_under_load
+// @unit name=ops_unary_helper_0_64 props=C19 kind=bounded bound=grid_(offset,len,bytes)=(0,64,8) fns=bitwise_unary_op_helper timeout=240
 inst!(ops_unary_helper_0_64, 12, unary_helper_grid::<0, 64, 8>());
-// @unit name=ops_unary_helper_5_65 props=C19 kind=bounded bound=grid_(offset,len,bytes)=(5,65,10) fns=bitwise_unary_op_helper tier=thorough timeout=240 note=not_confirmed_under_load
+// @unit name=ops_unary_helper_5_65 props=C19 kind=bounded bound=grid_(offset,len,bytes)=(5,65,10) fns=bitwise_unary_op_helper timeout=240
 inst!(ops_unary_helper_5_65, 12, unary_helper_grid::<5, 65, 10>());
-// @unit name=ops_unary_helper_0_0 props=C19 kind=bounded bound=grid_(offset,len,bytes)=(0,0,1) fns=bitwise_unary_op_helper tier=thorough timeout=240 note=not_confirmed_under_load
+// @unit name=ops_unary_helper_0_0 props=C19 kind=bounded bound=grid_(offset,len,bytes)=(0,0,1) fns=bitwise_unary_op_helper tier=thorough timeout=240
 inst!(ops_unary_helper_0_0, 12, unary_helper_grid::<0, 0, 1>());
-// @unit name=ops_unary_helper_63_2 props=C19 kind=bounded bound=grid_(offset,len,bytes)=(63,2,10) fns=bitwise_unary_op_helper tier=thorough timeout=240 note=not_confirmed_under_load
+// @unit name=ops_unary_helper_63_2 props=C19 kind=bounded bound=grid_(offset,len,bytes)=(63,2,10) fns=bitwise_unary_op_helper tier=thorough timeout=240
 inst!(ops_unary_helper_63_2, 12, unary_helper_grid::<63, 2, 10>());
-// @unit name=ops_unary_helper_64_128 props=C19 kind=bounded bound=grid_(offset,len,bytes)=(64,128,24) fns=bitwise_unary_op_helper tier=thorough timeout=240 note=not_confirmed_under_load
+// @unit name=ops_unary_helper_64_128 props=C19 kind=bounded bound=grid_(offset,len,bytes)=(64,128,24) fns=bitwise_unary_op_helper tier=thorough timeout=240
 inst!(ops_unary_helper_64_128, 12, unary_helper_grid::<64, 128, 24>());
-// @unit name=ops_unary_helper_1_127 props=C19 kind=bounded bound=grid_(offset,len,bytes)=(1,127,17) fns=bitwise_unary_op_helper tier=thorough timeout=240 note=not_confirmed_under_load
+// @unit name=ops_unary_helper_1_127 props=C19 kind=bounded bound=grid_(offset,len,bytes)=(1,127,17) fns=bitwise_unary_op_helper tier=thorough timeout=240
 inst!(ops_unary_helper_1_127, 12, unary_helper_grid::<1, 127, 17>());
-// @unit name=ops_unary_helper_130_200 props=C19 kind=bounded bound=grid_(offset,len,bytes)=(130,200,42) fns=bitwise_unary_op_helper tier=thorough timeout=240 note=not_confirmed_under_load
+// @unit name=ops_unary_helper_130_200 props=C19 kind=bounded bound=grid_(offset,len,bytes)=(130,200,42) fns=bitwise_unary_op_helper tier=thorough timeout=240
 inst!(ops_unary_helper_130_200, 12, unary_helper_grid::<130, 200, 42>());
-// @unit name=ops_unary_helper_9_129 props=C19 kind=bounded bound=grid_(offset,len,bytes)=(9,129,19) fns=bitwise_unary_op_helper tier=thorough timeout=240 note=not_confirmed_under_load
+// @unit name=ops_unary_helper_9_129 props=C19 kind=bounded bound=grid_(offset,len,bytes)=(9,129,19) fns=bitwise_unary_op_helper tier=thorough timeout=240
 inst!(ops_unary_helper_9_129, 12, unary_helper_grid::<9, 129, 19>());
-// @unit name=ops_unary_helper_7_63 props=C19 kind=bounded bound=grid_(offset,len,bytes)=(7,63,10) fns=bitwise_unary_op_helper tier=thorough timeout=240 note=not_confirmed_under_load
+// @unit name=ops_unary_helper_7_63 props=C19 kind=bounded bound=grid_(offset,len,bytes)=(7,63,10) fns=bitwise_unary_op_helper tier=thorough timeout=240
 inst!(ops_unary_helper_7_63, 12, unary_helper_grid::<7, 63, 10>());
 
 fn quat_helper_grid<const O0: usize, const O1: usize, const O2: usize, const O3: usize, const LEN: usize, const N: usize>() {
@@ -188,30 +192,32 @@ fn quat_helper_grid<const O0: usize, const O1: usize, const O2: usize, const O3:
     let (ba, bb, bc, bd) = (mk(&a, 0), mk(&b, 0), mk(&c, 0), mk(&d, 0));
     let z = bitwise_quaternary_op_helper([&ba, &bb, &bc, &bd], [O0, O1, O2, O3], LEN, op);
     assert!(z.len() == (LEN + 7) / 8);
+    let (mut c1, mut c2) = (LEN == 0, LEN == 0);
     if LEN > 0 {
         let i: usize = kani::any();
         kani::assume(i < LEN);
         let k = 8 * (bit(&a, O0 + i) as u32) + 4 * (bit(&b, O1 + i) as u32) + 2 * (bit(&c, O2 + i) as u32) + (bit(&d, O3 + i) as u32);
         assert!(bit(z.as_slice(), i) == ((tb >> k) & 1 == 1));
-        kani::cover!(bit(z.as_slice(), i) && k == 5);
-        kani::cover!(!bit(z.as_slice(), i) && k == 10);
+        c1 = bit(z.as_slice(), i) && k == 5;
+        c2 = !bit(z.as_slice(), i) && k == 10;
     }
-    kani::cover!(z.len() == (LEN + 7) / 8);
+    kani::cover!(c1);
+    kani::cover!(c2);
 }
 // Contract (C19) bitwise_quaternary_op_helper(bufs, offsets, len, op) for each of the 65536 uniform
 // bitwise 4-input operations (symbolic 16-entry truth table): zero-offset bitmap of exactly
 // ceil(len/8) bytes, bit i = table[b0-bit o0+i, b1-bit o1+i, b2-bit o2+i, b3-bit o3+i], i < len.
-// @unit name=ops_quat_helper_0_3_5_9_12 props=C19 kind=bounded bound=grid_(o0,o1,o2,o3,len,bytes)=(0,3,5,9,12,3) fns=bitwise_quaternary_op_helper tier=thorough timeout=400 note=not_confirmed_under_load
+// @unit name=ops_quat_helper_0_3_5_9_12 props=C19 kind=bounded bound=grid_(o0,o1,o2,o3,len,bytes)=(0,3,5,9,12,3) fns=bitwise_quaternary_op_helper timeout=400
 inst!(ops_quat_helper_0_3_5_9_12, 20, quat_helper_grid::<0, 3, 5, 9, 12, 3>());
-// @unit name=ops_quat_helper_0_0_0_0_64 props=C19 kind=bounded bound=grid_(o0,o1,o2,o3,len,bytes)=(0,0,0,0,64,8) fns=bitwise_quaternary_op_helper tier=thorough timeout=400 note=not_confirmed_under_load
+// @unit name=ops_quat_helper_0_0_0_0_64 props=C19 kind=bounded bound=grid_(o0,o1,o2,o3,len,bytes)=(0,0,0,0,64,8) fns=bitwise_quaternary_op_helper tier=thorough timeout=400
 inst!(ops_quat_helper_0_0_0_0_64, 20, quat_helper_grid::<0, 0, 0, 0, 64, 8>());
-// @unit name=ops_quat_helper_1_0_63_64_65 props=C19 kind=bounded bound=grid_(o0,o1,o2,o3,len,bytes)=(1,0,63,64,65,17) fns=bitwise_quaternary_op_helper tier=thorough timeout=400 note=not_confirmed_under_load
+// @unit name=ops_quat_helper_1_0_63_64_65 props=C19 kind=bounded bound=grid_(o0,o1,o2,o3,len,bytes)=(1,0,63,64,65,17) fns=bitwise_quaternary_op_helper timeout=400
 inst!(ops_quat_helper_1_0_63_64_65, 20, quat_helper_grid::<1, 0, 63, 64, 65, 17>());
-// @unit name=ops_quat_helper_7_8_9_130_130 props=C19 kind=bounded bound=grid_(o0,o1,o2,o3,len,bytes)=(7,8,9,130,130,33) fns=bitwise_quaternary_op_helper tier=thorough timeout=400 note=not_confirmed_under_load
+// @unit name=ops_quat_helper_7_8_9_130_130 props=C19 kind=bounded bound=grid_(o0,o1,o2,o3,len,bytes)=(7,8,9,130,130,33) fns=bitwise_quaternary_op_helper tier=thorough timeout=400
 inst!(ops_quat_helper_7_8_9_130_130, 20, quat_helper_grid::<7, 8, 9, 130, 130, 33>());
-// @unit name=ops_quat_helper_0_1_2_3_0 props=C19 kind=bounded bound=grid_(o0,o1,o2,o3,len,bytes)=(0,1,2,3,0,1) fns=bitwise_quaternary_op_helper tier=thorough timeout=400 note=not_confirmed_under_load
+// @unit name=ops_quat_helper_0_1_2_3_0 props=C19 kind=bounded bound=grid_(o0,o1,o2,o3,len,bytes)=(0,1,2,3,0,1) fns=bitwise_quaternary_op_helper tier=thorough timeout=400
 inst!(ops_quat_helper_0_1_2_3_0, 20, quat_helper_grid::<0, 1, 2, 3, 0, 1>());
-// @unit name=ops_quat_helper_64_65_1_2_127 props=C19 kind=bounded bound=grid_(o0,o1,o2,o3,len,bytes)=(64,65,1,2,127,24) fns=bitwise_quaternary_op_helper tier=thorough timeout=400 note=not_confirmed_under_load
+// @unit name=ops_quat_helper_64_65_1_2_127 props=C19 kind=bounded bound=grid_(o0,o1,o2,o3,len,bytes)=(64,65,1,2,127,24) fns=bitwise_quaternary_op_helper tier=thorough timeout=400
 inst!(ops_quat_helper_64_65_1_2_127, 20, quat_helper_grid::<64, 65, 1, 2, 127, 24>());
 
 fn buffer_bin_grid<const OP: u8, const OL: usize, const OR: usize, const LEN: usize, const NL: usize, const NR: usize, const SKL: usize, const SKR: usize>() {
@@ -237,25 +243,25 @@ fn buffer_bin_grid<const OP: u8, const OL: usize, const OR: usize, const LEN: us
 // (l, ol, r, or, len): the returned Buffer is a zero-offset bitmap of at least ceil(len/8) bytes whose
 // bit i is l-bit(ol+i) op r-bit(or+i) for every i < len (OP 0/1/2/3 = and/or/xor/and_not); inputs
 // fully symbolic. Path labels as for BooleanBuffer::from_bitwise_binary_op.
-// @unit name=ops_buffer_bin_and_1_65_7_9_17_0_0 props=C19 kind=bounded bound=grid_(ol,or,len,bytes_l,bytes_r,skew_l,skew_r)=(1,65,7,9,17,0,0)_path=aligned_exact fns=buffer_bin_and tier=thorough timeout=300 note=not_confirmed_under_load
+// @unit name=ops_buffer_bin_and_1_65_7_9_17_0_0 props=C19 kind=bounded bound=grid_(ol,or,len,bytes_l,bytes_r,skew_l,skew_r)=(1,65,7,9,17,0,0)_path=aligned_exact fns=buffer_bin_and timeout=300
 inst!(ops_buffer_bin_and_1_65_7_9_17_0_0, 12, buffer_bin_grid::<0, 1, 65, 7, 9, 17, 0, 0>());
-// @unit name=ops_buffer_bin_or_3_5_12_2_3_0_0 props=C19 kind=bounded bound=grid_(ol,or,len,bytes_l,bytes_r,skew_l,skew_r)=(3,5,12,2,3,0,0)_path=bitchunks fns=buffer_bin_or tier=thorough timeout=300 note=not_confirmed_under_load
+// @unit name=ops_buffer_bin_or_3_5_12_2_3_0_0 props=C19 kind=bounded bound=grid_(ol,or,len,bytes_l,bytes_r,skew_l,skew_r)=(3,5,12,2,3,0,0)_path=bitchunks fns=buffer_bin_or timeout=300
 inst!(ops_buffer_bin_or_3_5_12_2_3_0_0, 12, buffer_bin_grid::<1, 3, 5, 12, 2, 3, 0, 0>());
-// @unit name=ops_buffer_bin_xor_0_64_65_9_24_0_0 props=C19 kind=bounded bound=grid_(ol,or,len,bytes_l,bytes_r,skew_l,skew_r)=(0,64,65,9,24,0,0)_path=aligned_suffix fns=buffer_bin_xor tier=thorough timeout=300 note=not_confirmed_under_load
+// @unit name=ops_buffer_bin_xor_0_64_65_9_24_0_0 props=C19 kind=bounded bound=grid_(ol,or,len,bytes_l,bytes_r,skew_l,skew_r)=(0,64,65,9,24,0,0)_path=aligned_suffix fns=buffer_bin_xor tier=thorough timeout=300
 inst!(ops_buffer_bin_xor_0_64_65_9_24_0_0, 12, buffer_bin_grid::<2, 0, 64, 65, 9, 24, 0, 0>());
-// @unit name=ops_buffer_bin_and_not_3_67_70_10_18_0_0 props=C19 kind=bounded bound=grid_(ol,or,len,bytes_l,bytes_r,skew_l,skew_r)=(3,67,70,10,18,0,0)_path=aligned_suffix fns=buffer_bin_and_not tier=thorough timeout=300 note=not_confirmed_under_load
+// @unit name=ops_buffer_bin_and_not_3_67_70_10_18_0_0 props=C19 kind=bounded bound=grid_(ol,or,len,bytes_l,bytes_r,skew_l,skew_r)=(3,67,70,10,18,0,0)_path=aligned_suffix fns=buffer_bin_and_not timeout=300
 inst!(ops_buffer_bin_and_not_3_67_70_10_18_0_0, 12, buffer_bin_grid::<3, 3, 67, 70, 10, 18, 0, 0>());
-// @unit name=ops_buffer_bin_and_3_3_70_11_17_1_1 props=C19 kind=bounded bound=grid_(ol,or,len,bytes_l,bytes_r,skew_l,skew_r)=(3,3,70,11,17,1,1)_path=unaligned_chunks_rem fns=buffer_bin_and tier=thorough timeout=300 note=not_confirmed_under_load
+// @unit name=ops_buffer_bin_and_3_3_70_11_17_1_1 props=C19 kind=bounded bound=grid_(ol,or,len,bytes_l,bytes_r,skew_l,skew_r)=(3,3,70,11,17,1,1)_path=unaligned_chunks_rem fns=buffer_bin_and tier=thorough timeout=300
 inst!(ops_buffer_bin_and_3_3_70_11_17_1_1, 12, buffer_bin_grid::<0, 3, 3, 70, 11, 17, 1, 1>());
-// @unit name=ops_buffer_bin_or_8_72_20_4_12_0_0 props=C19 kind=bounded bound=grid_(ol,or,len,bytes_l,bytes_r,skew_l,skew_r)=(8,72,20,4,12,0,0)_path=aligned_suffix fns=buffer_bin_or tier=thorough timeout=300 note=not_confirmed_under_load
+// @unit name=ops_buffer_bin_or_8_72_20_4_12_0_0 props=C19 kind=bounded bound=grid_(ol,or,len,bytes_l,bytes_r,skew_l,skew_r)=(8,72,20,4,12,0,0)_path=aligned_suffix fns=buffer_bin_or tier=thorough timeout=300
 inst!(ops_buffer_bin_or_8_72_20_4_12_0_0, 12, buffer_bin_grid::<1, 8, 72, 20, 4, 12, 0, 0>());
-// @unit name=ops_buffer_bin_xor_0_9_65_9_10_0_0 props=C19 kind=bounded bound=grid_(ol,or,len,bytes_l,bytes_r,skew_l,skew_r)=(0,9,65,9,10,0,0)_path=bitchunks fns=buffer_bin_xor tier=thorough timeout=300 note=not_confirmed_under_load
+// @unit name=ops_buffer_bin_xor_0_9_65_9_10_0_0 props=C19 kind=bounded bound=grid_(ol,or,len,bytes_l,bytes_r,skew_l,skew_r)=(0,9,65,9,10,0,0)_path=bitchunks fns=buffer_bin_xor tier=thorough timeout=300
 inst!(ops_buffer_bin_xor_0_9_65_9_10_0_0, 12, buffer_bin_grid::<2, 0, 9, 65, 9, 10, 0, 0>());
-// @unit name=ops_buffer_bin_and_not_63_0_64_16_8_0_0 props=C19 kind=bounded bound=grid_(ol,or,len,bytes_l,bytes_r,skew_l,skew_r)=(63,0,64,16,8,0,0)_path=bitchunks fns=buffer_bin_and_not tier=thorough timeout=300 note=not_confirmed_under_load
+// @unit name=ops_buffer_bin_and_not_63_0_64_16_8_0_0 props=C19 kind=bounded bound=grid_(ol,or,len,bytes_l,bytes_r,skew_l,skew_r)=(63,0,64,16,8,0,0)_path=bitchunks fns=buffer_bin_and_not tier=thorough timeout=300
 inst!(ops_buffer_bin_and_not_63_0_64_16_8_0_0, 12, buffer_bin_grid::<3, 63, 0, 64, 16, 8, 0, 0>());
-// @unit name=ops_buffer_bin_and_130_2_200_42_26_0_0 props=C19 kind=bounded bound=grid_(ol,or,len,bytes_l,bytes_r,skew_l,skew_r)=(130,2,200,42,26,0,0)_path=aligned_suffix fns=buffer_bin_and tier=thorough timeout=300 note=not_confirmed_under_load
+// @unit name=ops_buffer_bin_and_130_2_200_42_26_0_0 props=C19 kind=bounded bound=grid_(ol,or,len,bytes_l,bytes_r,skew_l,skew_r)=(130,2,200,42,26,0,0)_path=aligned_suffix fns=buffer_bin_and tier=thorough timeout=300
 inst!(ops_buffer_bin_and_130_2_200_42_26_0_0, 12, buffer_bin_grid::<0, 130, 2, 200, 42, 26, 0, 0>());
-// @unit name=ops_buffer_bin_or_65_1_130_25_17_0_0 props=C19 kind=bounded bound=grid_(ol,or,len,bytes_l,bytes_r,skew_l,skew_r)=(65,1,130,25,17,0,0)_path=aligned_suffix fns=buffer_bin_or tier=thorough timeout=300 note=not_confirmed_under_load
+// @unit name=ops_buffer_bin_or_65_1_130_25_17_0_0 props=C19 kind=bounded bound=grid_(ol,or,len,bytes_l,bytes_r,skew_l,skew_r)=(65,1,130,25,17,0,0)_path=aligned_suffix fns=buffer_bin_or tier=thorough timeout=300
 inst!(ops_buffer_bin_or_65_1_130_25_17_0_0, 12, buffer_bin_grid::<1, 65, 1, 130, 25, 17, 0, 0>());
 
 fn buffer_not_grid<const OFF: usize, const LEN: usize, const N: usize, const SK: usize>() {
@@ -275,15 +281,15 @@ fn buffer_not_grid<const OFF: usize, const LEN: usize, const N: usize, const SK:
 // number of bits": the returned Buffer is a zero-offset bitmap (like the result of every other
 // function of this module) of at least ceil(len/8) bytes whose bit i is the negation of src-bit
 // offset+i, for every i < len.
-// @unit name=ops_buffer_not_0_64_8_0 props=C19 kind=bounded bound=grid_(offset,len,bytes,ptr_skew)=(0,64,8,0) fns=buffer_unary_not tier=thorough timeout=240 note=not_confirmed_under_load
+// @unit name=ops_buffer_not_0_64_8_0 props=C19 kind=bounded bound=grid_(offset,len,bytes,ptr_skew)=(0,64,8,0) fns=buffer_unary_not timeout=240
 inst!(ops_buffer_not_0_64_8_0, 12, buffer_not_grid::<0, 64, 8, 0>());
-// @unit name=ops_buffer_not_0_70_9_0 props=C19 kind=bounded bound=grid_(offset,len,bytes,ptr_skew)=(0,70,9,0) fns=buffer_unary_not tier=thorough timeout=240 note=not_confirmed_under_load
+// @unit name=ops_buffer_not_0_70_9_0 props=C19 kind=bounded bound=grid_(offset,len,bytes,ptr_skew)=(0,70,9,0) fns=buffer_unary_not tier=thorough timeout=240
 inst!(ops_buffer_not_0_70_9_0, 12, buffer_not_grid::<0, 70, 9, 0>());
-// @unit name=ops_buffer_not_64_65_17_0 props=C19 kind=bounded bound=grid_(offset,len,bytes,ptr_skew)=(64,65,17,0) fns=buffer_unary_not tier=thorough timeout=240 note=not_confirmed_under_load
+// @unit name=ops_buffer_not_64_65_17_0 props=C19 kind=bounded bound=grid_(offset,len,bytes,ptr_skew)=(64,65,17,0) fns=buffer_unary_not tier=thorough timeout=240
 inst!(ops_buffer_not_64_65_17_0, 12, buffer_not_grid::<64, 65, 17, 0>());
-// @unit name=ops_buffer_not_128_10_19_1 props=C19 kind=bounded bound=grid_(offset,len,bytes,ptr_skew)=(128,10,19,1) fns=buffer_unary_not tier=thorough timeout=240 note=not_confirmed_under_load
+// @unit name=ops_buffer_not_128_10_19_1 props=C19 kind=bounded bound=grid_(offset,len,bytes,ptr_skew)=(128,10,19,1) fns=buffer_unary_not tier=thorough timeout=240
 inst!(ops_buffer_not_128_10_19_1, 12, buffer_not_grid::<128, 10, 19, 1>());
-// @unit name=ops_buffer_not_3_12_2_0 props=C19 kind=bounded bound=grid_(offset,len,bytes,ptr_skew)=(3,12,2,0) fns=buffer_unary_not tier=thorough timeout=240 note=not_confirmed_under_load
+// @unit name=ops_buffer_not_3_12_2_0 props=C19 kind=bounded bound=grid_(offset,len,bytes,ptr_skew)=(3,12,2,0) fns=buffer_unary_not timeout=240 note=passes_only_with_fix_efa269e_of_F5
 inst!(ops_buffer_not_3_12_2_0, 12, buffer_not_grid::<3, 12, 2, 0>());
-// @unit name=ops_buffer_not_65_63_16_0 props=C19 kind=bounded bound=grid_(offset,len,bytes,ptr_skew)=(65,63,16,0) fns=buffer_unary_not tier=thorough timeout=240 note=not_confirmed_under_load
+// @unit name=ops_buffer_not_65_63_16_0 props=C19 kind=bounded bound=grid_(offset,len,bytes,ptr_skew)=(65,63,16,0) fns=buffer_unary_not tier=thorough timeout=240 note=passes_only_with_fix_efa269e_of_F5
 inst!(ops_buffer_not_65_63_16_0, 12, buffer_not_grid::<65, 63, 16, 0>());
